@@ -144,7 +144,10 @@ PROPS["C16"] = {
     "lean_modules": ["GoSup.Props.C16"],
     "theorems": ["GoSup.Props.C16.commit_clean", "GoSup.Props.C16.processExisting_cases", "GoSup.Props.C16.plan_unchanged",
                  "GoSup.Props.C16.plan_changed_running", "GoSup.Props.C16.plan_removed_running", "GoSup.Props.C16.plan_no_leak",
-                 "GoSup.Props.C16.plan_fails_with_clash"],
+                 "GoSup.Props.C16.plan_fails_with_clash",
+                 "GoSup.Props.C16.c16_unchanged_kept", "GoSup.Props.C16.c16_removed_gone", "GoSup.Props.C16.c16_new_or_changed",
+                 "GoSup.Props.C16.c16_committed", "GoSup.Props.C16.c16_accounting", "GoSup.Props.C16.c16_old_stopped_first",
+                 "GoSup.Props.C16.c16_count", "GoSup.Props.C16.c16_every_sequence", "GoSup.Props.C16.c16_run_all_stopped"],
     "ties": [],
     "legs": [{"name": "planner", "cmd": "planner"}, {"name": "cluster", "cmd": "cluster"}],
     "rule": "planner (newEntries/buildPendingEntries/getPendingActions/commit through the verif export) on seeded (current, desired) "
@@ -161,7 +164,14 @@ PROPS["C16"] = {
     "level_text": "Theorems about the diff planner (buildPendingEntries as a sequence of map assignments) for maps of any size and "
                   "any iteration order under the NoClash precondition: unchanged entries are carried over untouched with their "
                   "instance, changed running entries get a stop entry under id:stop and a fresh start entry, removed running "
-                  "entries get a stop entry, hence no running instance leaks; commit leaves no pending work; the clash witness.",
+                  "entries get a stop entry, hence no running instance leaks; commit leaves no pending work; the clash witness. "
+                  "Theorems about the update executor (plan, stop phase, start phase, commit; shutdown = the update to the empty map) "
+                  "for every sequence of maps over ids that do not collide with the ':stop' keys, every iteration order and every "
+                  "pattern of factory errors and never-ready servers (transient or permanent): unchanged entries keep their instance, "
+                  "removed ids are gone, new/changed ids are served by a fresh instance with the desired configuration or dropped, "
+                  "every instance not kept is stopped in the stop phase before any start, the runners of the committed entries "
+                  "enumerate exactly the instances started and not yet stopped (GetServerCount), and when Run() returns the "
+                  "entries are empty and no instance ever started is live.",
     "level_note": COMMON_NOTE,
     "design_ref": "DESIGN.md section 5, C16",
 }
